@@ -936,6 +936,27 @@ func (m *Model) RunDirMode(s *Sink, rule string) {
 	for _, kw := range names {
 		tok := dirs[kw]
 		want := takes(kw)
+		// blanks before the parenthesis: an argument list for the directives that always take one (`@if (x)`), text for
+		// the others (`@slot (optional)` in a component is a default slot followed by text). Evaluated on a real lexer
+		// state; skipped when that is not possible
+		if clx, okL := m.lexerAt(kw+" (x) t", 0); okL {
+			if cst, isSt := clx.(*iStruct); isSt {
+				ipc := &Interp{m: m, useGlobals: true}
+				ipc.Run(dt, []any{cst})
+				if hv, ok1 := mp.eval(m, cst); ipc.stuck == "" && ok1 && hv.Kind() == constant.Bool {
+					key := fmt.Sprintf("%s|after %s followed by %q the mode matches what the parser reads", fnKey(dt), kw, " (")
+					n++
+					code := !constant.BoolVal(hv)
+					if code == (want == "always") {
+						s.OK(rule, key, m.Pos(dt.Pos()), "the directive takes parentheses: %s; lexer enters code mode: %v", want, code)
+					} else if code {
+						s.Violation(rule, key, m.Pos(dt.Pos()), "after %s followed by a blank and \"(\" the lexer enters code mode, but the directive takes its parentheses only when they follow at once (%s): `%s (text)` is a bare directive followed by text, which would be tokenised and disappear", kw, want, kw)
+					} else {
+						s.Violation(rule, key, m.Pos(dt.Pos()), "after %s followed by a blank and \"(\" the lexer stays in text mode, but the directive always takes arguments: they are emitted as text", kw)
+					}
+				}
+			}
+		}
 		for _, next := range []byte{'(', 'x'} {
 			lx := fresh.copyVal() // the state lexer.New leaves (text mode), standing on the '@' of the directive
 			lx.val = false
@@ -949,6 +970,16 @@ func (m *Model) RunDirMode(s *Sink, rule string) {
 				return nil, false
 			}
 			ip.Run(dt, []any{lx})
+			// on a real lexer state when possible: a lookahead that reads the input itself sees the same bytes
+			if clx, okL := m.lexerAt(kw+string([]byte{next})+"x) t", 0); okL {
+				if cst, isSt := clx.(*iStruct); isSt {
+					ipc := &Interp{m: m, useGlobals: true}
+					ipc.Run(dt, []any{cst})
+					if hv, ok1 := mp.eval(m, cst); ipc.stuck == "" && ok1 && hv.Kind() == constant.Bool {
+						lx, ip = cst, ipc
+					}
+				}
+			}
 			key := fmt.Sprintf("%s|after %s followed by %q the mode matches what the parser reads", fnKey(dt), kw, string(next))
 			n++
 			hv, ok1 := mp.eval(m, lx)
